@@ -200,6 +200,9 @@ def _jobs(tier):
             if seq[0] in "uv":
                 continue  # unregistering from the empty router is a no-op
             jobs.append({"ops": "".join(seq)})
+    if tier == "quick":
+        # length-4 histories around unregistering one of two endpoints that share payload types / SSRCs
+        jobs += [{"ops": o} for o in ("rrup", "rruc", "rpup", "ssvc")]
     if tier == "thorough":
         # a family of length-5 histories around re-registration and latching
         for mid in itertools.product("rup", repeat=2):
